@@ -67,6 +67,8 @@ ESSENTIAL_SHAPES = {
     "open:missing", "open:.py", "import:pedal", "library:json", "recursion", "nested-functions", "c:keyerror",
     "user:SystemExit", "user:SystemExit, Exception", "user:KeyError", "builtin:TimeoutError", "builtin:OSError",
     "builtin:SystemExit", "builtin:IndentationError", "normal", "call-missing", "eval:syntax",
+    "stdout-closed-then-fail", "print-after-close", "stdout-replaced-and-closed-then-fail",
+    "stdout-getvalue-replaced-then-fail", "stdout-closed-then-systemexit", "stdout-closed-then-keyboardinterrupt",
 }
 
 
